@@ -202,6 +202,15 @@ def one(cases, rng, tier, rep, d):
             mk(cases, "apply_mask/index-out-of-range/" + tag, lambda x=x, d=d: x.apply_mask(tn.tensor([[N[0] + 5] + [0] * (d - 1)])), None)
             mk(cases, "mprod/mode-out-of-range/" + tag, lambda x=x, d=d: x.mprod(tn.ones(2, 2), d + 1), None)
             mk(cases, "mprod/list-vs-int/" + tag, lambda x=x: x.mprod([tn.ones(2, N[0])], 0), InvalidArguments)
+            # positions / axes / modes given as 0-d tensors or numpy scalars of a NON-INTEGER dtype (also with integral values): never an index
+            for fn_, fv in (("t-float1.5", tn.tensor(1.5)), ("t-float1.0", tn.tensor(1.0, dtype=tn.float64)), ("np-float", np.float64(1.0)), ("t-half", tn.tensor(0.5, dtype=tn.float16))):
+                mk(cases, "getitem/index-%s/%s" % (fn_, tag), lambda x=x, fv=fv, d=d: x[tuple([fv] + [0] * (d - 1))] if d > 1 else x[(fv,)], None)
+                mk(cases, "getitem/index-%s-with-slices/%s" % (fn_, tag), lambda x=x, fv=fv, d=d: x[tuple([slice(None)] * (d - 1) + [fv])], None)
+                mk(cases, "sum/axis-%s/%s" % (fn_, tag), lambda x=x, fv=fv: x.sum(fv), None)
+                mk(cases, "sum/axis-list-%s/%s" % (fn_, tag), lambda x=x, fv=fv: x.sum([0, fv]) if len(x.N) > 1 else x.sum([fv]), None)
+                mk(cases, "cat/dim-%s/%s" % (fn_, tag), lambda x=x, fv=fv: torchtt.cat((x, x), fv), None)
+                mk(cases, "mprod/mode-%s/%s" % (fn_, tag), lambda x=x, fv=fv: x.mprod(tn.ones(2, N[0], dtype=tn.float64), fv), None)
+                mk(cases, "getitem/ttm-index-%s/%s" % (fn_, tag), lambda A=A, fv=fv, d=d: A[tuple([fv] + [0] * (2 * d - 1))], None)
             # list form: lists of different lengths (surplus matrix / surplus mode), a listed position outside the train, a repeated mode whose
             # second matrix fits only the ORIGINAL size; controls: equal lengths incl. a repeated mode
             F0 = tn.ones([5, N[0]], dtype=tn.float64); F0b = tn.ones([3, 5], dtype=tn.float64); Fl = tn.ones([2, N[d - 1]], dtype=tn.float64)
